@@ -1627,3 +1627,15 @@ def prove_static_local(ctx, rel, timeout=900):
     if not ok:
         ctx.log(f"static property file {rel} FAILED:\n{out[-1500:]}" + "\n".join(probs))
     return ok, out
+
+
+def coqc_many_retry(ctx, files, jobs=16, timeout=1500):
+    """ctx.coqc_many, then one sequential retry for files whose coqc was killed from outside (signal /
+    out-of-memory killer on a loaded machine: non-zero exit without any Coq `Error`)."""
+    res = ctx.coqc_many(files, jobs=jobs, timeout=timeout)
+    for f in files:
+        rc, out = res[f]
+        if rc != 0 and rc != 124 and "Error" not in out:
+            ctx.log(f"coqc on {getattr(f, 'name', f)} ended with status {rc} and no Coq error: retrying once")
+            res[f] = ctx.coqc(f, timeout=timeout)
+    return res
